@@ -76,7 +76,7 @@ func firstDiff(a, b []byte) int {
 func check(v *tlx.Val) (skipped bool, err error) {
 	err = hx.Safely(func() error {
 		refB, refErr := tlx.Encode(v)
-		gv, berr := reg.Bridge(v)
+		gv, berr := tlx.Bridge(reg, v)
 		if berr != nil {
 			if errors.Is(berr, tlx.ErrSkip) {
 				skipped = true
@@ -183,7 +183,7 @@ func special(c *Case, src tlx.Src) error {
 			if err != nil {
 				continue
 			}
-			gv, err := reg.Bridge(v)
+			gv, err := tlx.Bridge(reg, v)
 			if err != nil {
 				continue
 			}
